@@ -9,8 +9,9 @@ EXTENDS Integers, Sequences, FiniteSets, TLC, Json
 CONSTANTS MinV, MaxV, NLabels,
           EditOps,     \* {} : no second phase ; subset of {"remove_cells", "remove_vertices"} : one edit after Compute
           MaxRemove,   \* an edit removes 1..MaxRemove cells / vertices
-          Deviations   \* {} ; "ScanLeavesIsolatedInPartZero" (as built before 8dd460c) ; negative controls:
-                       \* "ChainAllVertices", "EditKeepsParts" (the labels read before an edit survive it)
+          Deviations   \* {} ; "ScanLeavesIsolatedInPartZero" (as built before 8dd460c) ;
+                       \* "ChainAllVertices" (negative control; also what the code AS BUILT does when the labels are
+                       \*  passed before the vertices) ; "EditKeepsParts" (the labels read before an edit survive it)
 
 (* History half for curves: parts derived from segments must agree with connectivity after EVERY change of the    *)
 (* geometry.  After Compute (create with parts, read cells, read parts - the labels are now cached in            *)
@@ -121,5 +122,9 @@ ExportCase == out.done =>
     PrintT(<<"CASE", ToJson([labels |-> inp,
                              cells |-> [c \in DOMAIN out.cells |-> <<out.cells[c][1] - 1, out.cells[c][2] - 1>>],
                              parts |-> {ZeroBased(B) : B \in out.parts},
-                             asbuilt |-> {ZeroBased(B) : B \in PartitionOf(ScanParts(N, out.cells))}])>>)
+                             asbuilt |-> {ZeroBased(B) : B \in PartitionOf(ScanParts(N, out.cells))},
+                             \* AS BUILT "PartsBeforeVerticesIgnored": Curve.create(parts=..., vertices=...) applies the
+                             \* keywords in order, the parts setter does nothing while there are no vertices
+                             \* (curve.py:159) and the curve gets the default segments = deviation ChainAllVertices
+                             chain |-> [c \in 1..(N - 1) |-> <<c - 1, c>>]])>>)
 =============================================================================
